@@ -175,6 +175,92 @@ def usetKinds (_ng : Nat) (u : NMat Float) : (Nat → Bool) × (Nat → Bool) :=
 
 def twoPi : Float := 2 * 3.141592653589793
 
+/-- `_cbcoordchk` on the b-set stiffness `kbb` (rows in `bset` order): zero-stiffness trimming (more than six DOF),
+stiffness-based modes with the identity on the reference DOF `refp` (positions inside the b-set), the refpoint check,
+optional normalisation, coordinates and pattern errors from the translation rows (`rbdispchk`) -/
+structure CoordChkOut where
+  chk : String
+  rbsB : Array Float
+  coords : Array Float
+  errs : Array Float
+  resid : Array Float
+  ntrim : Nat
+
+def coordChk (nb : Nat) (kbb : NMat Float) (refp : List Nat) (normz : Option (NMat Float)) : Except String CoordChkOut := do
+  let ng := nb / 6
+  let kbb_a := tab nb nb kbb
+  let keep0 := coordKeep nb kbb
+  let trimmed := nb > PyYetiVerif.Generated.RigidBodyConsts.trimMinRows && keep0.length < nb
+  let keep := if trimmed then keep0 else List.range nb
+  let lbT := keep.length
+  let kpf : Nat → Nat := fun i => keep[i]!
+  let kbbT_a := if trimmed then tab lbT lbT (reorder kbb kpf) else kbb_a
+  let kbbT := ofArr kbbT_a lbT
+  let refT := if trimmed then trimRef keep refp else refp
+  if refT.length != 6 then throw "raise-refpoint"
+  let o := flippv refT lbT
+  let no := o.length
+  let rf : Nat → Nat := fun i => refT[i]!
+  let of : Nat → Nat := fun i => o[i]!
+  let kor_a := tab no 6 (fun i j => kbbT (of i) (rf j))
+  let kor := ofArr kor_a 6
+  let koo_a := tab no no (fun i j => kbbT (of i) (of j))
+  let koo := ofArr koo_a no
+  let krr_a := tab 6 6 (fun i j => kbbT (rf i) (rf j))
+  let krr := ofArr krr_a 6
+  let Sa := gesolve no 6 koo kor
+  let X_a := tab no 6 (fun i j => -(Sa[i * 6 + j]!))
+  let X := ofArr X_a 6
+  let resid_a := tab 6 6 (schurResid no krr kor X)
+  let resid := ofArr resid_a 6
+  let kmax := (tab 6 6 krr).foldl (fun a x => if x.abs > a then x.abs else a) 0
+  let chk :=
+    if no == 0 then "single"
+    else
+      -- np.allclose(krr, rhs, atol = max|krr| * 1e-8)   (rtol = 1e-5 on |rhs|)
+      let ok := (List.range 36).all fun t =>
+        let i := t / 6; let j := t % 6
+        let rhs := krr i j - resid i j
+        (resid i j).abs <= kmax * Float.ofBits PyYetiVerif.Generated.RigidBodyConsts.refTolBits + 1e-5 * rhs.abs
+      if ok then "pass" else "fail"
+  let rbsT_a := tab lbT 6 (rbsAssemble refT o X)
+  let rbsB0_a := if trimmed then tab nb 6 (nullExpand keep (ofArr rbsT_a 6)) else rbsT_a
+  let rbsB0 := ofArr rbsB0_a 6
+  let rbsBa := match normz with
+    | some nz => tab nb 6 (mulN 6 rbsB0 nz)
+    | none => rbsB0_a
+  let rbsB := ofArr rbsBa 6
+  -- coordinates from the translation rows (`rbdispchk(rbmodes[xyz])`)
+  let xyz_a := tab (3 * ng) 6 (fun i j => rbsB (6 * (i / 3) + i % 3) j)
+  match rbdispAll ng (ofArr xyz_a 6) (Float.ofBits PyYetiVerif.Generated.RigidBodyConsts.rbdispTolBits) with
+  | none => throw "raise-singular"
+  | some (coords, errs, _) =>
+    pure { chk := chk, rbsB := rbsBa, coords := coords, errs := errs, resid := resid_a, ntrim := nb - lbT }
+
+/-- `cb.cbcoordchk(K, bset, refpoint, rb_normalizer=…)` called directly: `coordchk n nb bset… ref(6) norm(0 | 1 N(36)) K(n n)`
+→ `chk nrows rbmodes(nrows 6) coords(3 ng) errs(ng) ntrim`, or `raise-bset-multiple` / `raise-refpoint` / `raise-singular`.
+(`nrows = n`, the modes scattered to the rows `bset`, when there are modal DOF; WITHOUT modal DOF the routine returns
+the `nb` rows in `bset` ORDER, cb.py:2158-2161.) -/
+def doCoordchk : P String := do
+  let n ← pNat; let nb ← pNat
+  let bset ← pMany nb pNat; let ref ← pMany 6 pNat
+  let nflag ← pNat
+  let nza ← (if nflag == 1 then pMany 36 pF else pure #[])
+  let Ka ← pMany (n * n) pF; pEnd
+  if (nb / 6) * 6 != nb then return "raise-bset-multiple"
+  let K := ofArr Ka n
+  let bl := bset.toList
+  let kbb_a := tab nb nb (reorder K fun i => bset[i]!)
+  let refp := ref.toList.filterMap (idxIn bl)
+  match coordChk nb (ofArr kbb_a nb) refp (if nflag == 1 then some (ofArr nza 6) else none) with
+  | .error e => pure e
+  | .ok c =>
+    let rbsB := ofArr c.rbsB 6
+    let lq := n - nb
+    let nrows := if lq > 0 then n else nb
+    let rbm := if lq > 0 then tab n 6 (fun i j => match idxIn bl i with | some k => rbsB k j | none => 0) else c.rbsB
+    pure (" ".intercalate ([c.chk, toString nrows, fmtA rbm, fmtA c.coords, fmtA c.errs, toString c.ntrim].filter (· ≠ "")))
+
 /-- tabulation of an `nr x nc` block (the `memo` argument of the models): semantically the identity -/
 @[noinline] def memoF (nr nc : Nat) (A : NMat Float) : Tbl Float :=
   let a := tab nr nc A
@@ -228,54 +314,20 @@ def doCbcheck : P String := do
   let rbg_a := tab nb 6 out.rbg
   let rbg := ofArr rbg_a 6
   let rbnorm := out.rbNorm
-  -- stiffness-based modes, with the zero-stiffness trimming of `_cbcoordchk` (only when lb > 6)
+  -- stiffness-based modes (`cbcoordchk`)
   let bfn : Nat → Nat := fun i => bset[i]!
   let kbb_a := tab nb nb (reorder K2 bfn)
   let kbb := ofArr kbb_a nb
-  let keep0 := coordKeep nb kbb
-  let trimmed := nb > PyYetiVerif.Generated.RigidBodyConsts.trimMinRows && keep0.length < nb
-  let keep := if trimmed then keep0 else List.range nb
-  let lbT := keep.length
-  let kpf : Nat → Nat := fun i => keep[i]!
-  let kbbT_a := if trimmed then tab lbT lbT (reorder kbb kpf) else kbb_a
-  let kbbT := ofArr kbbT_a lbT
-  let refT := if trimmed then trimRef keep refp else refp
-  if refT.length != 6 then return "raise-refpoint"
-  let o := flippv refT lbT
-  let no := o.length
-  let rf : Nat → Nat := fun i => refT[i]!
-  let of : Nat → Nat := fun i => o[i]!
-  let kor_a := tab no 6 (fun i j => kbbT (of i) (rf j))
-  let kor := ofArr kor_a 6
-  let koo_a := tab no no (fun i j => kbbT (of i) (of j))
-  let koo := ofArr koo_a no
-  let krr_a := tab 6 6 (fun i j => kbbT (rf i) (rf j))
-  let krr := ofArr krr_a 6
-  let Sa := gesolve no 6 koo kor
-  let X_a := tab no 6 (fun i j => -(Sa[i * 6 + j]!))
-  let X := ofArr X_a 6
-  let resid_a := tab 6 6 (schurResid no krr kor X)
-  let resid := ofArr resid_a 6
-  let kmax := (tab 6 6 krr).foldl (fun a x => if x.abs > a then x.abs else a) 0
-  let chk :=
-    if no == 0 then "single"
-    else
-      -- np.allclose(krr, rhs, atol = max|krr| * 1e-8)   (rtol = 1e-5 on |rhs|)
-      let ok := (List.range 36).all fun t =>
-        let i := t / 6; let j := t % 6
-        let rhs := krr i j - resid i j
-        (resid i j).abs <= kmax * Float.ofBits PyYetiVerif.Generated.RigidBodyConsts.refTolBits + 1e-5 * rhs.abs
-      if ok then "pass" else "fail"
-  let rbsT_a := tab lbT 6 (rbsAssemble refT o X)
-  let rbsB0_a := if trimmed then tab nb 6 (nullExpand keep (ofArr rbsT_a 6)) else rbsT_a
-  let rbsB0 := ofArr rbsB0_a 6
   let normz_a := tab 6 6 (fun i j => rbg (refp[i]!) j)
-  let normz := ofArr normz_a 6
-  let rbsBa := if rbnorm then tab nb 6 (mulN 6 rbsB0 normz) else rbsB0_a
-  let rbsB := ofArr rbsBa 6
-  -- coordinates from the translation rows (`rbdispchk(rbmodes[xyz])`)
-  let xyz_a := tab (3 * ng) 6 (fun i j => rbsB (6 * (i / 3) + i % 3) j)
-  let some (coords, errs, _) := rbdispAll ng (ofArr xyz_a 6) (Float.ofBits PyYetiVerif.Generated.RigidBodyConsts.rbdispTolBits) | return "raise-singular"
+  let cc ← match coordChk nb kbb refp (if rbnorm then some (ofArr normz_a 6) else none) with
+    | .error e => return e
+    | .ok c => pure c
+  let chk := cc.chk
+  let rbsB := ofArr cc.rbsB 6
+  let coords := cc.coords
+  let errs := cc.errs
+  let resid := ofArr cc.resid 6
+  let lbT := nb - cc.ntrim
   -- rows of the full-size modes: b-set rows hold rbsB, modal rows are zero
   let rbs_a := tab n 6 (fun i j => match idxIn bset i with | some k => rbsB k j | none => 0)
   let rbs := ofArr rbs_a 6
@@ -575,6 +627,7 @@ def answerP : P String := do
   | "rbdisp" => doRbdisp
   | "netdrm" => doNetdrm
   | "netfull" => doNetfull
+  | "coordchk" => doCoordchk
   | "princ" => doPrinc
   | "rbchk" => doRbchk
   | "rbmult" => doRbmult
